@@ -262,6 +262,26 @@ impl Collector {
     }
 }
 
+/// replies may quote addresses (org.varlink.resolver.Resolve): print them with the placeholder again
+fn unapply_bytes(sub: &Subst, b: &[u8]) -> Vec<u8> {
+    let needle = sub.dir.as_bytes();
+    if needle.is_empty() {
+        return b.to_vec();
+    }
+    let mut out = Vec::with_capacity(b.len());
+    let mut i = 0;
+    while i < b.len() {
+        if b[i..].starts_with(needle) {
+            out.extend_from_slice(b"%D");
+            i += needle.len();
+        } else {
+            out.push(b[i]);
+            i += 1;
+        }
+    }
+    out
+}
+
 fn nul_count(b: &[u8]) -> usize {
     b.iter().filter(|x| **x == 0).count()
 }
@@ -780,7 +800,7 @@ fn run_proxy(ctx: &Ctx, l: &[Sx]) -> Sx {
         let nonce = format!("n{}", std::process::id());
         let (b, _) = strip_sentinel(&coll.snapshot(), &nonce);
         let cut = std::cmp::min(res.boundary.unwrap_or(b.len()), b.len());
-        (b[..cut].to_vec(), b[cut..].to_vec())
+        (unapply_bytes(&sub, &b[..cut]), b[cut..].to_vec())
     };
 
     // what the services saw through the bridge (a oneway call is executed some time after it was forwarded)
@@ -831,10 +851,10 @@ fn run_proxy(ctx: &Ctx, l: &[Sx]) -> Sx {
         let pl = if routes.last().map(|r| r.0 == target).unwrap_or(false) { c.payload.clone() } else { None };
         let r = direct_run(&address, &mine, &pl, t == nsvc);
         if let Some(d) = &r {
-            direct_replies.extend(wire::split_replies(&d.out));
+            direct_replies.extend(wire::split_replies(&unapply_bytes(&sub, &d.out)));
         }
         direct.push(match r {
-            Some(d) => sx::list(vec![sx::nat(t), sx::tagged("out", wire::split_replies(&d.out)), sx::bs(&d.raw), sx::atom(d.end)]),
+            Some(d) => sx::list(vec![sx::nat(t), sx::tagged("out", wire::split_replies(&unapply_bytes(&sub, &d.out))), sx::bs(&d.raw), sx::atom(d.end)]),
             None => sx::list(vec![sx::nat(t), sx::tagged("fail", vec![]), sx::bs(&[]), sx::atom("closed")]),
         });
     }
@@ -1052,10 +1072,37 @@ fn mk_case(mode: Sx, gw: &GenWorld, client: &str, frames: &[Vec<u8>], payload: O
 fn gen_good_request(rng: &mut Rng, gw: &GenWorld, tok: &str, tags: &mut Vec<String>) -> Vec<u8> {
     let p = |i: usize| json!({"token": tok, "i": i});
     let mut v: Value;
-    match rng.below(12) {
+    match rng.below(15) {
         0 => {
             tags.push("req:getinfo".into());
             v = json!({"method":"org.varlink.service.GetInfo"});
+        }
+        12 => {
+            // a final reply whose OUT parameters have a member called `continues` (a paging method):
+            // only the top-level member of the reply is the protocol's flag
+            tags.push("req:script-continues-param".into());
+            let s = rng.pick(&gw.scripts);
+            if rng.chance(1, 2) {
+                v = json!({"method": format!("{}.Run", s.0), "parameters": {"script": [{"op":"reply","p":{"continues": true, "items": [tok], "token": tok}}], "token": tok}});
+            } else {
+                v = json!({"method": format!("{}.Run", s.0), "more": true, "parameters": {"script": [
+                    {"op":"cont","v":true}, {"op":"reply","p":{"continues": false, "token": tok}}, {"op":"cont","v":false},
+                    {"op":"reply","p":{"continues": true, "token": tok}}], "token": tok}});
+            }
+        }
+        13 => {
+            // a reply larger than the 8 KiB buffers of the bridge, written by the service in one go
+            tags.push("req:big-reply".into());
+            let s = rng.pick(&gw.scripts);
+            let n = *rng.pick(&[8100usize, 9000, 20000, 70000]);
+            v = json!({"method": format!("{}.Run", s.0), "parameters": {"script": [{"op":"reply","p":{"pad": "r".repeat(n), "token": tok}}], "token": tok}});
+        }
+        14 => {
+            // a request larger than the 8 KiB buffers
+            tags.push("req:big-request".into());
+            let s = rng.pick(&gw.scripts);
+            let n = *rng.pick(&[8100usize, 9000, 20000, 70000]);
+            v = json!({"method": format!("{}.Run", s.0), "parameters": {"pad": "q".repeat(n), "script": [{"op":"reply","p":p(0)}], "token": tok}});
         }
         1 => {
             tags.push("req:getdesc".into());
@@ -1244,6 +1291,21 @@ impl Suite for ProxySuite {
                 } else {
                     frames.push(gen_good_request(&mut rng, &gw, &t, &mut tags));
                 }
+            }
+            // the same interface before and after a call that is routed to the resolver: the cached
+            // (interface, address) pair must survive the detour
+            if rng.chance(1, 5) {
+                let sc = rng.pick(&gw.scripts).clone();
+                let at = rng.below(frames.len() + 1);
+                let mk = |t: &str| serde_json::to_vec(&json!({"method": format!("{}.Run", sc.0), "parameters": {"script": [{"op":"reply","p":{"token": t}}], "token": t}})).unwrap();
+                tok += 3;
+                let middle = if rng.chance(2, 3) {
+                    serde_json::to_vec(&json!({"method":"org.varlink.service.GetInfo"})).unwrap()
+                } else {
+                    serde_json::to_vec(&json!({"method":"org.varlink.resolver.Resolve","parameters":{"interface": sc.0}})).unwrap()
+                };
+                frames.splice(at..at, vec![mk(&format!("k{}z", tok - 2)), middle, mk(&format!("k{}z", tok))]);
+                tags.push("resolver-detour".into());
             }
             tags.push(format!("client:{}", client));
             // upgraded sessions: single-reply requests first, then the upgrade, then a payload
